@@ -494,7 +494,7 @@ func main() {
 		ID:        "C17",
 		Title:     "A parsed configuration can be evaluated concurrently",
 		Technique: "systematic schedule exploration (preemption-bounded depth-first search under a controlled cooperative scheduler) of the real code with its sync operations and function entries as scheduling points; separate free-running -race pass",
-		Rule: "drivers D1-D18 (one shared parsed expression/body/schema/spec/function table, 2-3 goroutines with their own EvalContext and goroutine-specific contents): full / nested / attribute splats, splat over an unknown list, splat inside for and template, child contexts of a shared parent, JSON expression, Content / PartialContent / JustAttributes / Variables / dynblock.Expand + hcldec.Decode on native, JSON and merged bodies, call expansion, front ends and writer on unrelated inputs, nil contexts, one schema on dynblock remainders, shared remainder bodies, JSON array forms, one shared hcldec spec with Transform/Default/Validate/Refine wrappers on goroutine-specific bodies, user-defined functions, expressions parsed with recovered syntax errors. " +
+		Rule: "drivers D1-D19 (one shared parsed expression/body/schema/spec/function table, 2-3 goroutines with their own EvalContext and goroutine-specific contents): full / nested / attribute splats, splat over an unknown list, splat inside for and template, child contexts of a shared parent, JSON expression, Content / PartialContent / JustAttributes / Variables / dynblock.Expand + hcldec.Decode on native, JSON and merged bodies, call expansion, front ends and writer on unrelated inputs, nil contexts, one schema on dynblock remainders, shared remainder bodies, JSON array forms, one shared hcldec spec with Transform/Default/Validate/Refine wrappers on goroutine-specific bodies, user-defined functions, expressions parsed with recovered syntax errors, static-analysis views interleaved with evaluation. " +
 			"Every schedule with at most k preemptions (k=2 quick, k=3 thorough) is executed, sharded over the top-level branches; each goroutine's (value, diagnostics) must equal the result of the same call run alone, no deadlock/panic, and a solo call afterwards gives the solo result. states = executions (complete schedules), transitions = scheduling decisions taken; every trace is executed on the implementation. A case = one (driver, shard); distinct = distinct (driver, shard, executions).",
 		Assumptions: []string{"memory-model effects and unsynchronised accesses are invisible to a cooperative scheduler; they are delegated to the free-running -race pass (200 rounds per driver, 2000 thorough), which is not counted as model checking", "goroutine counts 2-3 only"},
 		Gen:         gen,
